@@ -18,6 +18,7 @@ ops   new:<neg>            client options: neg=1 negotiates versions (default cl
       ps:<typ>:<id|@c>:<pay>     the peer sends a frame (@c = the id caller c's request carried)
       pcut:<k>:<typ>:<id|@c>:<pay>  the peer sends the first k bytes of that frame (0 ≤ k < its length) and vanishes
       pc                   the peer closes its side / the connection is closed locally
+      pcutout:<j>          the peer reads only j bytes (j < frame length) of the next frame the client writes and vanishes
       tmo                  the read deadline expires (clients WithTimeout) while the first message is awaited
       call:<c>:<typ>:<pay> SendMessage by caller c ;  nw:<c>:<typ>:<pay> SendNoWait ; shutdown:<c> Shutdown
       cancel:<c>  close    context of c ends ; Client.Close()
@@ -38,6 +39,8 @@ structure Sim where
   shutRes : List (Nat × String) := []
   stuck : Option Nat := none
   early : Option Nat := none
+  /-- the peer vanishes inside the next frame the client writes -/
+  outCut : Bool := false
 
 def negGSV : Nat := 900
 def negSPV : Nat := 901
@@ -72,15 +75,15 @@ def negActs (m : Sim) : List Act :=
 
 def cands (m : Sim) : List Act :=
   let all := m.cs ++ [negGSV, negSPV]
-  [Act.connInitial m.firstOk m.neg, .connInitialFail true, .connRejectReady, .connNegErrs] ++ negActs m ++
+  [Act.connInitial m.firstOk m.neg, .connInitialFail true, .connRejectReady, .connNegErrs, .connNegClosed] ++ negActs m ++
   [.connReady, .connServeErr, .connServeDone, .connReturn, .connFailReturn,
    .rdSeeDone, .rdHeader, .rdEof, .rdDispatch, .rdDeliver, .rdHandle, .rdWaitDone,
    .wrSeeDone, .wrPickAck] ++ all.map Act.wrPickReq ++
-  [if m.s.peerClosed then Act.wrFail else Act.wrWrite, .wrParkedDone] ++
+  [if m.s.peerClosed || m.outCut then Act.wrFail else Act.wrWrite, .wrParkedDone] ++
   all.flatMap (fun c => [Act.callReady c, .callToken c, .callGetReply c, .callSeeDone c, .callSeeCtx c])
 
-/-- Shutdown = SendMessage(CloseConnection), then Close when the reply is a CloseConnectionResponse / ErrorMessage with
-status Success -/
+/-- Shutdown = SendMessage(CloseConnection), then Close when the reply is a CloseConnectionResponse with status Success
+(an ErrorMessage reply, whatever its status bytes, makes Shutdown return an error without closing) -/
 def shutdownPost (m : Sim) : Sim :=
   match m.shut.find? (fun c => match (m.s.callers c).pc with | .done _ => true | _ => false) with
   | none => m
@@ -88,7 +91,7 @@ def shutdownPost (m : Sim) : Sim :=
     let m1 := { m with shut := m.shut.filter (· != c) }
     match (m.s.callers c).pc with
     | .done (.reply f _) =>
-      if (f.typ = 4 ∨ f.typ = 100) ∧ f.pay = 0 then
+      if f.typ = 4 ∧ f.pay = 0 then
         { m1 with s := { step m.s .close with closeLog := m.s.closeLog }, shutRes := m.shutRes ++ [(c, if m.s.done then "closed" else "nil")] }
       else { m1 with shutRes := m.shutRes ++ [(c, "err")] }
     | .done .closed => { m1 with shutRes := m.shutRes ++ [(c, "closed")] }
@@ -98,7 +101,9 @@ def shutdownPost (m : Sim) : Sim :=
 def stepOnce (rev : Bool) (m : Sim) : Option Sim :=
   let l := if rev then (cands m).reverse else cands m
   match l.find? (enabled m.s) with
-  | some a => some (shutdownPost { m with s := step m.s a })
+  | some a =>
+    if a == .wrFail && m.outCut then some (shutdownPost { m with s := step (step m.s a) .peerClose, outCut := false })
+    else some (shutdownPost { m with s := step m.s a })
   | none => none
 
 def settle (rev : Bool) : Nat → Sim → Sim
@@ -167,6 +172,7 @@ def parseOp (m : Sim) (t : String) : Option Op :=
         | none => m) true)
     | _ => none
   | ["pc"] => some (.env (fun m => act m .peerClose) false)
+  | ["pcutout", _] => some (.env (fun m => { m with outCut := true }) true)
   | ["tmo"] => some (.env (fun m => act m (.connInitialFail false)) true)
   | ["call", c, typ, pay] =>
     match natArgs [c, typ, pay] with
